@@ -336,6 +336,9 @@ class ObjMixin:
         mro = cls.mro()
         i = mro.index(sv.after) if sv.after in mro else -1
         for c in mro[i + 1:]:
+            if name == '__init__' and name not in c.attrs and c.dataclass is not None and isinstance(obj, Obj):
+                # the __init__ generated by @dataclass for this base
+                return Builtin(c.name + '.__init__', lambda *a, _c=c, **k: self.dataclass_init(obj, _c, list(a), k), pure=False)
             if name in c.attrs:
                 v = c.attrs[name]
                 if isinstance(v, FuncInfo):
